@@ -343,6 +343,17 @@ fn check_key_packet(ctx: &mut Ctx, seen: &mut Seen, tag: Tag, wire: &[u8], origi
     }
     // ---- oracle: over the octets on the wire, when they are what the library would write
     let wire_pub = if key.is_secret() { wire.get(..pub_body.len()).unwrap_or(&[]) } else { wire };
+    if origin == "synthetic-canonical" {
+        // bodies built here in the one form the RFC allows (no MPI with leading zeros, minimal
+        // OID arcs): the fingerprint is the hash of the key AS PUBLISHED, and writing it back
+        // changes nothing
+        ctx.oracle("canonical_wire_kept", "Serialize for PublicKey (after parse)", &input, wire_pub == pub_body.as_slice(),
+                   &format!("written back as {}", hx(&pub_body)));
+        if let Some(want) = rfc_fingerprint(ver, wire, key.params()) {
+            ctx.oracle("fp_over_wire_body", "KeyDetails::fingerprint", &input, fp.as_bytes() == want.as_slice(),
+                       &format!("reported {} RFC over wire {}", fp_str(&fp), hx(&want)));
+        }
+    }
     if wire_pub == pub_body.as_slice() {
         ctx.stat("key:wire_canonical");
         if let Some(want) = rfc_fingerprint(ver, wire_pub, key.params()) {
@@ -1160,6 +1171,54 @@ pub fn run(ctx: &mut Ctx) {
             b.extend_from_slice(&[0, 17, 1, 0, 1]);
             syn.push(b);
         }
+    }
+    // canonical bodies the generator and the fixtures never contain: curves the library has no name
+    // for, with OID arcs whose base-128 form has zero groups inside; native public keys with every
+    // bit pattern in the top octet
+    let mut canon: Vec<Vec<u8>> = Vec::new();
+    for oid in [
+        vec![0x2bu8, 0x06, 0x01, 0x04, 0x01, 0x81, 0x80, 0x01, 0x01], // 1.3.6.1.4.1.16385.1
+        vec![0x2b, 0x81, 0x80, 0x00, 0x05],                          // arc 16384 then 5
+        vec![0x2b, 0x06, 0xc0, 0x80, 0x80, 0x01],                    // arc with two zero groups
+        vec![0x2b, 0x06, 0x01, 0x87, 0x80, 0x7f],
+        vec![0x2a, 0x03, 0x04],
+    ] {
+        for (alg, tail) in [(19u8, vec![]), (22, vec![]), (18, vec![0x03, 0x01, 0x08, 0x07])] {
+            let mut b = vec![4u8, 0x60, 0x00, 0x00, 0x01, alg, oid.len() as u8];
+            b.extend_from_slice(&oid);
+            // an uncompressed-point-shaped MPI: 0x04 followed by 64 octets (515 bits)
+            b.extend_from_slice(&[0x02, 0x03, 0x04]);
+            b.extend_from_slice(&pattern(oid.len() + alg as usize, 64));
+            b.extend_from_slice(&tail);
+            canon.push(b);
+        }
+    }
+    for (alg, n) in [(25u8, 32usize), (27, 32), (26, 56), (28, 57)] {
+        for top in [0x00u8, 0x7f, 0x80, 0xff, 0x01] {
+            for ver in [4u8, 6] {
+                let mut key = pattern(alg as usize + top as usize, n);
+                key[n - 1] = top;
+                key[0] |= 1;
+                let mut b = vec![ver, 0x60, 0x00, 0x00, 0x02, alg];
+                if ver == 6 {
+                    b.extend_from_slice(&(n as u32).to_be_bytes());
+                }
+                b.extend_from_slice(&key);
+                canon.push(b);
+            }
+        }
+    }
+    for body in canon {
+        if seen.bodies.contains(&body) {
+            continue;
+        }
+        for tag in [Tag::PublicKey, Tag::PublicSubkey] {
+            if check_key_packet(ctx, &mut seen, tag, &body, "synthetic-canonical").is_none() {
+                ctx.stat("synthetic_canonical:rejected");
+            }
+            seen.bodies.remove(&body);
+        }
+        seen.bodies.insert(body);
     }
     // unsupported versions
     for v in [0u8, 1, 2, 5, 7, 255] {
